@@ -689,8 +689,49 @@ fn one_layout_case(ctx: &Ctx, rng: &mut StdRng, lsec: &str, shape: &Value, tr: &
     let ship = shape["ship"] == true;
     let big = shape["edf"].as_array().map_or(false, |e| e.iter().any(|f| f == "gameid")) && rng.gen_bool(0.5);
     let (a, _d, _x) = pick_ids(rng, big);
-    let css = !ship && lsec != "info_goldsrc" && mode != "goldsrc" && rng.gen_bool(0.15);
-    let engine = if lsec == "info_goldsrc" {
+    // a row of the definitions table: the same reply is then also queried through the definition-driven entry point
+    // ("the per-game response derived from it carries the same values": the game's engine / app ids come from the table)
+    let row: Option<(&'static str, Engine)> = if !ship && lsec != "info_goldsrc" && rng.gen_bool(0.3) {
+        let mut rows: Vec<(&'static str, Engine)> = gamedig::GAMES
+            .entries()
+            .filter_map(|(id, g)| {
+                match &g.protocol {
+                    gamedig::protocols::types::Protocol::Valve(e) if *id != "battalion1944" => Some((*id, *e)),
+                    _ => None,
+                }
+            })
+            .filter(|(_, e)| matches!(e, Engine::GoldSrc(false)) == (mode == "goldsrc") && !matches!(e, Engine::GoldSrc(true)))
+            // ids above 16 bits can only be reported through the 64-bit game id: such rows need an info shape that carries it
+            .filter(|(_, e)| {
+                let has_gameid = shape["edf"].as_array().map_or(false, |e| e.iter().any(|f| f == "gameid"));
+                match e {
+                    Engine::Source(Some((m, d))) => lsec != "info_source" || has_gameid || (*m < 65536 && d.map_or(true, |d| d < 65536)),
+                    _ => true,
+                }
+            })
+            .collect();
+        rows.sort_by_key(|(id, _)| *id);
+        // Counter-Strike: Source (app 240) has a framing rule of its own (protocol 7): drawn more often than 1 in 80
+        if mode != "goldsrc" && rng.gen_bool(0.3) { rows.iter().find(|(id, _)| *id == "css").copied() } else { rows.choose(rng).copied() }
+    } else {
+        None
+    };
+    let css = match row {
+        Some((id, _)) => id == "css",
+        None => !ship && lsec != "info_goldsrc" && mode != "goldsrc" && rng.gen_bool(0.15),
+    };
+    let row_ids: Option<(u32, Option<u32>)> = match row {
+        Some((_, Engine::Source(Some((m, d))))) => Some((m, d)),
+        _ => None,
+    };
+    let engine = if let Some((id, e)) = row {
+        match e {
+            Engine::GoldSrc(f) => json!({"t":"goldsrc","force":f}),
+            Engine::Source(None) => json!({"t":"source_none"}),
+            // (css: the protocol-level call uses the engine the protocol documents for app 240, whatever the table says)
+            Engine::Source(Some((m, d))) => if id == "css" { json!({"t":"source","main":240,"ded":null}) } else { json!({"t":"source","main":m,"ded":d}) },
+        }
+    } else if lsec == "info_goldsrc" {
         json!({"t":"goldsrc","force":true})
     } else if mode == "goldsrc" {
         if ship {
@@ -709,7 +750,10 @@ fn one_layout_case(ctx: &Ctx, rng: &mut StdRng, lsec: &str, shape: &Value, tr: &
     if (mode == "source" || mode == "bz2") && goldsrc_split(&engine) {
         return; // a GoldSrc server does not use Source framing
     }
-    let appid = if ship { 2400 } else if css { 240 } else { a };
+    let appid = match row_ids {
+        Some((m, d)) if !css => if rng.gen_bool(0.3) { d.unwrap_or(m) } else { m },
+        _ => if ship { 2400 } else if css { 240 } else { a },
+    };
     let target = match lsec {
         "info_source" | "info_goldsrc" => "info",
         s => s,
@@ -797,6 +841,42 @@ fn one_layout_case(ctx: &Ctx, rng: &mut StdRng, lsec: &str, shape: &Value, tr: &
             }
         }
         rep.violation("C02", &sig, replay);
+    }
+    // the same server through the definition-driven entry point of the table row
+    if let Some((id, _)) = row {
+        let game = gamedig::GAMES.get(id).unwrap();
+        let extras = gamedig::protocols::types::ExtraRequestSettings::default()
+            .set_gather_players(GatherToggle::Enforce)
+            .set_gather_rules(GatherToggle::Enforce)
+            .set_check_app_id(true);
+        let ip: std::net::IpAddr = addr(port).ip();
+        let grec = run_call_json(&script, DEFAULT_MAX_OPS, || {
+            match gamedig::query_with_timeout_and_extra_settings(game, &ip, Some(port), timeouts(0), Some(extras)) {
+                Ok(r) => Ok(serde_json::to_value(r.as_original()).unwrap()),
+                Err(e) => Err(format!("{:?}", e.kind)),
+            }
+        });
+        rep.evaluations += 1;
+        let want = json!({"info": expected["info"], "players": expected["players"], "rules": expected["rules"]});
+        let gviol: Option<(String, Value)> = match &grec.outcome {
+            Outcome::Ok(v) => {
+                // (the enum wrappers of the generic response are not part of the comparison)
+                let mut cur = v;
+                while let Some(m) = cur.as_object().filter(|m| m.len() == 1 && m.keys().next().unwrap().chars().next().map_or(false, |c| c.is_uppercase())) {
+                    cur = m.values().next().unwrap();
+                }
+                diff("", &want, cur).map(|d| (format!("valve {lsec} via {mode}: the definition-driven query of a table row differs at {}", diff_class(&d)), json!({"diff": d})))
+            }
+            Outcome::Err(k) => Some((format!("valve {lsec} via {mode}: the definition-driven query of a table row rejects a well-formed reply with {k}"), json!({"err": k}))),
+            Outcome::Panic { msg } => Some((format!("valve {lsec} via {mode}: generic path panic {}", first_line(msg)), json!({"panic": msg}))),
+            Outcome::Hang => Some((format!("valve {lsec} via {mode}: generic path does not return"), json!({}))),
+        };
+        if let Some((sig, detail)) = gviol {
+            let drifting = uncertain.as_str().filter(|u| !u.is_empty()).map_or(false, |u| ctx.drift.iter().any(|d| d == u));
+            if !drifting {
+                rep.violation("C02", &sig, json!({"kind":"valve-layout","case":case,"row":id,"script":script,"detail":detail,"outcome":grec.outcome.to_json()}));
+            }
+        }
     }
     // per-game conversion carries the same values
     if let Outcome::Ok(v) = &rec.outcome {
